@@ -861,6 +861,14 @@ impl KotoVm {
                             _ => KValue::Str(error.to_string().into()),
                         };
 
+                        // A failed call can have removed registers from the catching frame while
+                        // preparing its arguments, so make sure that all of the frame's registers
+                        // are available again before continuing.
+                        if self.registers.len() < self.min_frame_registers {
+                            self.registers
+                                .resize(self.min_frame_registers, KValue::Null);
+                        }
+
                         self.set_register(recover_register, catch_value);
                         self.set_ip(ip);
                     }
